@@ -566,8 +566,11 @@ def simulate(flat: Flat, emulate_stale=False, emulate_sampled_start=False, prese
                     active_tick = True
             if active_tick and i.op in ("list2", "allvalid2") and any(sampled_kind(i, r, t) == "via" for r in i.ins):
                 # F18 emulation, list-shaped inputs: with one element arriving through a nested pass-through the whole input is
-                # not woken in the start cycle of the dynamic child, not even by its other elements' ticks
-                active_tick = False
+                # not woken in the start cycle of the dynamic child, not even by the ticks of other elements that are nodes of
+                # the child - but an element that IS a boundary input of the started child schedules its consumers through the
+                # child's start (sampled initialisation), whatever the notifications do
+                if not any(r.target.uid in sampled_inputs and r.target.id in ticked and sampled_kind(i, r, t) is None for r in i.ins):
+                    active_tick = False
             if not (due or active_tick):
                 if any(r.target.id in ticked for r in i.ins):
                     R.stats["passive_only_ticks"] = R.stats.get("passive_only_ticks", 0) + 1
